@@ -116,8 +116,35 @@ CLAIMS['C10'] = dict(
     technique='bounded enumeration of the function contract (stand-in for contract-based deductive verification)',
     design_ref='DESIGN.md 5 C10')
 
+_BOUNDED_ONLY = ('BOUNDED STAND-IN ONLY, no proof: %s No obligation is discharged for this property; its contract is checked by exhaustive enumeration over a stated '
+                 'finite space on the real crate (bounded/: %s), as the stand-in the technique allows for functions outside the verifier\'s reach.')
+CLAIMS['C15'] = dict(category='other', technique='bounded enumeration of the function contract (stand-in for contract-based deductive verification)',
+    text=_BOUNDED_ONLY % ('SourceView::get_line builds its line index behind a std Mutex with an atomic progress counter and re-borrows the text through '
+         'unsafe slice::from_raw_parts / from_utf8_unchecked; Verus accepts none of these and Kani runs out of memory on this crate.', 'sourceview'),
+    note='Bound: all texts of length <= 5 over {a, LF, CR, e-acute, U+1F600}, 4 access orders each, all (col, span) per line plus extreme values. Single-threaded only (C16 is not applicable).',
+    design_ref='DESIGN.md 5 C15')
+CLAIMS['C17'] = dict(category='other', technique='bounded enumeration of the function contract (stand-in for contract-based deductive verification)',
+    text=_BOUNDED_ONLY % ('function-name resolution runs on SourceView (see C15), the if_chain! macro, char iterators walked backwards and the Unicode identifier tables of a dependency.', 'function_name'),
+    note='Bound: 4 generated programs, tokens at every UTF-16 column, every start token x 12 candidate names, plus the 128-token window; identifier classification restricted to ASCII, three non-ASCII letters and the joiners.',
+    design_ref='DESIGN.md 5 C17')
+CLAIMS['C18'] = dict(category='other', technique='bounded enumeration of the function contract (stand-in for contract-based deductive verification)',
+    text=_BOUNDED_ONLY % ('reference discovery iterates BufRead::lines (io::Result<String> items) and the data-URL round trip goes through two base64 crates and serde_json; the only '
+         'crate-local logic is a 21-byte prefix test and a boolean key predicate.', 'discover'),
+    note='Bound: texts of <= 3 lines from 8 line kinds x 2 newline styles x final newline or not; maps with 0..2 tokens through to_data_url / decode_data_url / embedded discovery; detection on serialised maps.',
+    design_ref='DESIGN.md 5 C18')
+CLAIMS['C19'] = dict(category='other', technique='bounded enumeration of the function contract (stand-in for contract-based deductive verification)',
+    text=_BOUNDED_ONLY % ('make_relative_path is written with split / filter / collect / sort_by_key over Vec<Cow<[&str]>>, repeat().take() and join, none of which has a vstd specification; '
+         'bringing it under contract would assume the whole function away in shims.', 'relpath'),
+    note='Bound: all pairs of paths of 1..4 components over 3 names, absolute and relative, both separators for the base (57600 pairs).',
+    design_ref='DESIGN.md 5 C19')
+CLAIMS['C20'] = dict(category='other', technique='bounded enumeration of the function contract (stand-in for contract-based deductive verification)',
+    text=_BOUNDED_ONLY % ('ram_bundle.rs is behind a cargo feature that the baseline build does not enable and reads every field through the scroll crate (derive(Pread), repr(packed)); '
+         'the bounds checks the property is about live in that dependency.', 'ram_bundle'),
+    note='Bound: bundles with 0..3 table slots, non-empty startup code of 1..2 bytes, modules of length 1..3, both physical orders; every truncation and every single-field corruption from 4 values. Built with --features ram_bundle.',
+    design_ref='DESIGN.md 5 C20')
+
 NOT_APPLICABLE = {p: 'under construction in this session (contract-based check being built; see DESIGN.md decision table)' for p in
-                  ['C15', 'C17', 'C18', 'C19', 'C20']}
+                  []}
 NOT_APPLICABLE['C16'] = ('concurrency (interleavings of threads sharing a SourceView over std Mutex / atomics): Kani has no thread support and Verus needs '
                          'its own permission-typed primitives, so no contract within reach of the installed verifiers expresses or decides it')
 
